@@ -1,24 +1,71 @@
 //! `harness <casefile>`: run every case of the file through chumsky and print one canonical result line
-//! per case (`<id> <result>`, see /verif/FORMAT.md), in input order.
+//! per case (`<id> <result>`, see /verif/FORMAT.md), in input order, flushed after every line.
+//!
+//! This is the front end only. The parsers are built and run by worker executables that sit next to this one
+//! (`hw-<ikind>-<ekind>`, `hw-array<N>-<ekind>`; see `hcore::worker`), one per input kind and error type: that
+//! way the generic instantiations of chumsky compile in parallel. Each worker that a case file needs is spawned
+//! once; a case line is written to its stdin and the result line read back from its stdout before the next
+//! case is looked at, so the per-case behaviour (`catch_unwind`, silenced panic hook, panic classification —
+//! all inside the worker) and the output order are those of a single process.
 
-mod ast;
-mod build;
-mod errs;
-mod input;
-mod sexp;
-mod val;
+use std::collections::HashMap;
+use std::io::{BufRead, BufReader, BufWriter, Write};
+use std::path::PathBuf;
+use std::process::{Child, ChildStdin, ChildStdout, Command, Stdio};
 
-use std::io::{BufRead, BufReader, Write};
-use std::panic::{catch_unwind, AssertUnwindSafe};
+use hcore::ast::{self, IKind};
+use hcore::sexp;
+use hcore::worker::{worker_name, ARRAY_MAX};
 
-use chumsky::error::{Cheap, EmptyErr, Rich, Simple};
-use chumsky::Parser;
+struct Worker {
+    child: Child,
+    to: BufWriter<ChildStdin>,
+    from: BufReader<ChildStdout>,
+}
 
-use ast::{Case, EKind, IKind, Mode};
-use build::Builder;
-use errs::HErr;
-use input::{HInput, HState};
-use val::Val;
+struct Pool {
+    dir: PathBuf,
+    /// `None`: the executable could not be started (reported once)
+    workers: HashMap<String, Option<Worker>>,
+}
+
+impl Pool {
+    fn get(&mut self, name: &str) -> Option<&mut Worker> {
+        if !self.workers.contains_key(name) {
+            let path = self.dir.join(name);
+            let spawned = Command::new(&path)
+                .env("HARNESS_WORKER", "1")
+                .stdin(Stdio::piped())
+                .stdout(Stdio::piped())
+                .stderr(Stdio::inherit())
+                .spawn();
+            let w = match spawned {
+                Ok(mut child) => {
+                    let to = BufWriter::new(child.stdin.take().expect("piped stdin"));
+                    let from = BufReader::new(child.stdout.take().expect("piped stdout"));
+                    Some(Worker { child, to, from })
+                }
+                Err(e) => {
+                    eprintln!("harness: cannot start worker {}: {e}", path.display());
+                    None
+                }
+            };
+            self.workers.insert(name.to_string(), w);
+        }
+        self.workers.get_mut(name).and_then(|w| w.as_mut())
+    }
+
+    /// Close the pipes and reap the workers.
+    fn shutdown(&mut self) {
+        for (_, w) in self.workers.drain() {
+            if let Some(Worker { mut child, to, from }) = w {
+                drop(to);
+                drop(from);
+                let _ = child.wait();
+            }
+        }
+    }
+}
 
 fn main() {
     let args: Vec<String> = std::env::args().collect();
@@ -33,11 +80,14 @@ fn main() {
             std::process::exit(2);
         }
     };
-    // `HARNESS_WHY=1`: explain UNSUPPORTED results on stderr
+    // `HARNESS_WHY=1`: explain UNSUPPORTED results on stderr (the workers read it too)
     let why = std::env::var_os("HARNESS_WHY").is_some();
 
-    // panics are results, not noise
-    std::panic::set_hook(Box::new(|_| {}));
+    let dir = std::env::current_exe()
+        .ok()
+        .and_then(|p| p.parent().map(|d| d.to_path_buf()))
+        .unwrap_or_else(|| PathBuf::from("."));
+    let mut pool = Pool { dir, workers: HashMap::new() };
 
     let stdout = std::io::stdout();
     let mut out = stdout.lock();
@@ -52,116 +102,96 @@ fn main() {
         if line.trim().is_empty() {
             continue;
         }
-        if let Some((id, result)) = run_line(&line, why) {
-            let _ = writeln!(out, "{id} {result}");
-            let _ = out.flush();
+        match route(&line, why) {
+            Route::Skip => {}
+            Route::Answer(id, result) => {
+                let _ = writeln!(out, "{id} {result}");
+                let _ = out.flush();
+            }
+            Route::Worker(id, name) => match pool.get(&name) {
+                None => {
+                    let _ = writeln!(out, "{id} UNSUPPORTED");
+                    let _ = out.flush();
+                }
+                Some(w) => match ask(w, &line) {
+                    Some(answer) => {
+                        let _ = writeln!(out, "{answer}");
+                        let _ = out.flush();
+                    }
+                    None => {
+                        // The worker died inside this case (abort, stack overflow, kill). A single-process
+                        // harness would be dead at this point, with no result line for the case: do the same,
+                        // the driver re-runs the remaining cases.
+                        eprintln!("harness: worker {name} died in case {id}");
+                        pool.shutdown();
+                        std::process::exit(3);
+                    }
+                },
+            },
         }
     }
+    pool.shutdown();
 }
 
-/// `None`: no id can be read from the line (it is skipped).
-fn run_line(line: &str, why: bool) -> Option<(u64, String)> {
+enum Route {
+    /// no id can be read from the line
+    Skip,
+    /// answered by the front end
+    Answer(u64, &'static str),
+    /// to be answered by the named worker
+    Worker(u64, String),
+}
+
+fn route(line: &str, why: bool) -> Route {
     let sexp = match sexp::parse_line(line) {
         Some(s) => s,
-        None => return sexp::salvage_id(line).map(|id| (id, "UNSUPPORTED".to_string())),
+        None => {
+            return match sexp::salvage_id(line) {
+                Some(id) => Route::Answer(id, "UNSUPPORTED"),
+                None => Route::Skip,
+            }
+        }
     };
-    let id = ast::case_id(&sexp)?;
-    let case = match ast::parse_case(&sexp) {
-        Some(c) => c,
+    let id = match ast::case_id(&sexp) {
+        Some(id) => id,
+        None => return Route::Skip,
+    };
+    let (ikind, ekind) = match ast::case_kinds(&sexp) {
+        Some(k) => k,
         None => {
             if why {
-                eprintln!("{id}: malformed case or unknown constructor/kind");
+                eprintln!("{id}: malformed case or unknown input kind / error type");
             }
-            return Some((id, "UNSUPPORTED".to_string()));
+            return Route::Answer(id, "UNSUPPORTED");
         }
     };
-    let result = match catch_unwind(AssertUnwindSafe(|| run_case(&case, why))) {
-        Ok(r) => r,
-        Err(payload) => {
-            let msg = if let Some(s) = payload.downcast_ref::<&'static str>() {
-                (*s).to_string()
-            } else if let Some(s) = payload.downcast_ref::<String>() {
-                s.clone()
-            } else {
-                String::new()
-            };
-            format!("PANIC {}", classify_panic(&msg))
-        }
-    };
-    Some((id, result))
-}
-
-fn classify_panic(msg: &str) -> &'static str {
-    if msg.contains("making no progress") {
-        "progress"
-    } else if msg.contains("called `Option::unwrap()` on a `None` value") {
-        "unwrap"
-    } else {
-        "other"
-    }
-}
-
-/// Dispatch on the input kind. The input buffer lives here, outside the parser.
-fn run_case(case: &Case, why: bool) -> String {
-    match case.ikind {
-        IKind::Str => {
-            let buf: String = case.input.iter().collect();
-            run_ekind::<&str>(case, &buf, why)
-        }
-        IKind::Slice => run_ekind::<&[char]>(case, &case.input[..], why),
-    }
-}
-
-/// Dispatch on the error type.
-fn run_ekind<'a, I: HInput<'a>>(case: &Case, input: I, why: bool) -> String {
-    match case.ekind {
-        EKind::Empty => run::<I, EmptyErr>(case, input, why),
-        EKind::Cheap => run::<I, Cheap>(case, input, why),
-        EKind::Simple => run::<I, Simple<'a, char>>(case, input, why),
-        EKind::Rich => run::<I, Rich<'a, char>>(case, input, why),
-    }
-}
-
-fn run<'a, I: HInput<'a>, E: HErr<'a, I>>(case: &Case, input: I, why: bool) -> String {
-    let parser = match Builder::<I, E>::new(input.clone()).g(&case.grammar) {
-        Ok(p) => p,
-        Err(u) => {
-            if why {
-                eprintln!("{}: {}", case.id, u.0);
+    let mut n = 0;
+    if ikind == IKind::Array {
+        // one worker per array length
+        n = match sexp.list().and_then(|l| l[5].list()) {
+            Some(toks) if toks.len() <= ARRAY_MAX => toks.len(),
+            _ => {
+                if why {
+                    eprintln!("{id}: array: the input must be a list of at most {ARRAY_MAX} tokens");
+                }
+                return Route::Answer(id, "UNSUPPORTED");
             }
-            return "UNSUPPORTED".to_string();
-        }
-    };
-    let mut state = HState::default();
-    let (output, errs): (Option<Option<Val>>, Vec<E>) = match case.mode {
-        Mode::Parse => {
-            let (o, e) = parser.parse_with_state(input.clone(), &mut state).into_output_errors();
-            (o.map(Some), e)
-        }
-        Mode::Check => {
-            let (o, e) = parser.check_with_state(input.clone(), &mut state).into_output_errors();
-            (o.map(|()| None), e)
-        }
-    };
+        };
+    }
+    Route::Worker(id, worker_name(ikind, ekind, n))
+}
 
-    let mut out = String::new();
-    match output {
-        Some(Some(v)) => {
-            out.push_str("OK ");
-            v.canon(&mut out);
-            out.push(' ');
+/// One request/response round trip. `None`: the worker is gone.
+fn ask(w: &mut Worker, line: &str) -> Option<String> {
+    w.to.write_all(line.as_bytes()).ok()?;
+    w.to.write_all(b"\n").ok()?;
+    w.to.flush().ok()?;
+    let mut answer = String::new();
+    match w.from.read_line(&mut answer) {
+        Ok(n) if n > 0 && answer.ends_with('\n') => {
+            answer.pop();
+            Some(answer)
         }
-        Some(None) => out.push_str("OK - "),
-        None => out.push_str("FAIL "),
+        _ => None,
     }
-    out.push_str("E[");
-    let conv = |raw: usize| input.pos(raw);
-    for (i, e) in errs.iter().enumerate() {
-        if i > 0 {
-            out.push(';');
-        }
-        e.canon(&conv, &mut out);
-    }
-    out.push(']');
-    out
 }
